@@ -195,7 +195,7 @@ static std::pair<std::string, std::string> parse_and_compare(int ti, const std::
   // one vector in three is the prefix of a longer one (chosen by the vector itself, so that replays agree): registered options, an option
   // argument and an operand follow beyond argc
   std::vector<std::string> tail;
-  if (fnv(show_argv(argv)) % 3 == 0 && !t.opts.empty()) tail = {t.opts[0].name, std::string(t.opts[t.opts.size() - 1].name), "value", "--", "operand"};
+  if (!argv.empty() && fnv(show_argv(argv)) % 3 == 0 && !t.opts.empty()) tail = {t.opts[0].name, std::string(t.opts[t.opts.size() - 1].name), "value", "--", "operand"};
   Heap h(argv, tail);
   REC.stop_after = stop_after;
   shim_parse(ti, (int)argv.size(), h.argv, reset_mode, opterr_val, &REC);
@@ -246,6 +246,9 @@ static std::string make_token(const TTable &t, int cat, Prng &r) {
   std::string unreg;
   for (char ch : std::string("zQ9yW"))
     if (regchars.find(ch) == std::string::npos) unreg.push_back(ch);
+  // bytes >= 0x80 whose low seven bits spell a registered letter, and other non-ASCII bytes, are unregistered options like any other
+  for (char ch : regchars) unreg.push_back((char)(ch | 0x80));
+  unreg.push_back((char)0xe9);
   auto unreg_short = [&]() { return std::string("-") + unreg[(size_t)r.upto((int)unreg.size() - 1)]; };
   static const std::vector<std::string> vals = {"v", "", "a=b", "-", "--", "-x", "=", "val ue", "--foo", "1"};
   switch (cat) {
@@ -323,7 +326,7 @@ static rc::Gen<Case> gen_parse(int) {
     int tb = *range<int>(0, 2) ? ta : *range<int>(0, nt - 1);
     int stop = *rc::gen::weightedOneOf<int>({{7, rc::gen::just(-1)}, {3, range<int>(0, 4)}});
     Case c;
-    c.push_back(Op("cfg", {ta, tb, *range<int>(1, 3), *range<int>(1, 3), *rc::gen::weightedElement<int>({{3, 0}, {1, 1}}), stop, *range<int>(0, (int)ARGV0.size() - 1)}));
+    c.push_back(Op("cfg", {ta, tb, *range<int>(1, 3), *range<int>(1, 3), *rc::gen::weightedElement<int>({{3, 0}, {1, 1}}), stop, *range<int>(0, 39) == 0 ? 99 : *range<int>(0, (int)ARGV0.size() - 1)}));
     for (auto &t : *gen_argv(ta)) c.push_back(Op("a", {}, t));
     for (auto &t : *gen_argv(tb)) c.push_back(Op("b", {}, t));
     return c;
@@ -347,6 +350,11 @@ static bool read_cfg(const Case &c, int64_t *cfg, std::vector<std::string> *A, s
   cfg[4] = cfg[4] != 0;
   if (cfg[5] < -1) cfg[5] = -1;
   if (cfg[5] > 100) cfg[5] = 100;
+  if (cfg[6] == 99) {  // the empty vector: argc == 0, argv[0] == NULL (a vector of length 0 is a vector)
+    A->clear();
+    B->clear();
+    return true;
+  }
   cfg[6] = ((cfg[6] % (int)ARGV0.size()) + (int)ARGV0.size()) % (int)ARGV0.size();
   A->assign(1, ARGV0[(size_t)cfg[6]]);
   B->assign(1, ARGV0[(size_t)cfg[6]]);
@@ -384,7 +392,7 @@ static rc::Gen<Case> gen_fresh(int) {
   return rc::gen::exec([]() {
     int tb = *range<int>(0, (int)TABLES.size() - 1);
     Case c;
-    c.push_back(Op("cfg", {0, tb, 1, 1, *rc::gen::weightedElement<int>({{3, 0}, {1, 1}}), -1, *range<int>(0, (int)ARGV0.size() - 1)}));
+    c.push_back(Op("cfg", {0, tb, 1, 1, *rc::gen::weightedElement<int>({{3, 0}, {1, 1}}), -1, *range<int>(0, 39) == 0 ? 99 : *range<int>(0, (int)ARGV0.size() - 1)}));
     for (auto &t : *gen_argv(tb)) c.push_back(Op("b", {}, t));
     return c;
   });
